@@ -10,6 +10,37 @@ BASELINE_OFF = ("cd /repo && env -u SYM_METANET_VERIF /venv/bin/python -m pytest
 
 # id -> (technique, level text, level note, design ref)
 CHECKS = {
+    "C15": (
+        "full Cartesian product of argument alphabets per engine primitive (deviation-bounded for the 16-argument speed "
+        "update), NumPy arrays in every shape the element layer produces vs casadi.DM",
+        "Exhaustive enumeration on the implementation: for each of the 14 primitives plus max and vcat every combination of "
+        "alphabet values (branch boundaries, zeros, infinities) and argument shapes is evaluated with both real engines; "
+        "values must agree within 1e-9 and be finite whenever the primitive's own 0/0 does not occur; step_speed is "
+        "explored to 2 (quick) / 3 (thorough) simultaneous excursions from two base tuples under all four None patterns.",
+        "Variables are passed as arrays/DM, parameters as plain numbers (what the element layer does).",
+        "DESIGN.md section 3, C15",
+    ),
+    "C17": (
+        "full Cartesian product of admissible argument alphabets for the origin-flow primitives on both engines, plus "
+        "exhaustive network programs x admissible deviation-bounded vectors at network level; inequality oracles",
+        "Exhaustive enumeration on the implementation: every admissible (queue, demand, control, density, speed, capacity, "
+        "T) tuple of the alphabets for mainstream, both metered variants and limited simplified origins on both engines, "
+        "and the origin flows / next queues of every network within the bound on every admissible single-excursion "
+        "vector (NumPy and compiled SX): 0 <= q <= d + w/T, q <= capacity, q = 0 at maximum density, w+ >= 0.",
+        "Alphabets include the corners where several limits are active together; tolerance 1e-9.",
+        "DESIGN.md section 3, C17",
+    ),
+    "C18": (
+        "exhaustive enumeration of shapes x controlled element positions x neutral/finite control settings x value "
+        "vectors; metamorphic equalities and a monotonicity inequality between paired real networks",
+        "Bounded exhaustive exploration on the implementation: for every valid shape within the bound, every link as a "
+        "VSL link (N in 1..3, every VSL-set option incl. empty) with infinite limits must equal the plain link; a finite "
+        "limit must not raise any next speed and must leave every other next state untouched; metered 'in'/'out' with "
+        "r=1 and limited simplified with infinite desired flow must coincide; a mainstream origin with limit inf, 1e6 or "
+        "its first-segment speed must coincide; NumPy and compiled SX on base vectors and all single excursions.",
+        "The controlled element is the only deviation from the base configuration; tolerance 1e-12 / 1e-9.",
+        "DESIGN.md section 3, C18",
+    ),
     "C12": (
         "exhaustive enumeration of step/compile histories on the same network objects with caller-held inputs; purity "
         "invariants after every operation and bitwise comparison with the same step on a fresh network",
